@@ -161,6 +161,15 @@ def service_oracle(script, impl):
             if 'changed1:ro1' in out:
                 bad('readonly: an exported method outside the API table changed the data of a read-only engine', ws, out)
             continue
+        if op == 'scanrace':
+            # a scan open while a batch arrives shows the state before the batch, never a mix; the batch is applied afterwards
+            if out != 'scanrace atomic-old':
+                bad('scan-atomicity: a streaming scan that was open while a batch was committed did not show the state before the '
+                    'batch (the embedded scan runs inside a read-only transaction: no commit falls between two of its pairs)', ws[:3], out)
+            if out.startswith('scanrace atomic') or out.startswith('scanrace mixed'):
+                for t, k, v in _batch_ops(ws[2:]):
+                    m[k] = None if t == 'd' else v
+            continue
         if op == 'dump':
             d = dict(w.split('=', 1) for w in out.split()[1:] if '=' in w)
             if d.get('svc') != d.get('emb'):
